@@ -443,6 +443,8 @@ impl<T> NCReadStream<T> {
         note_moved(ret.is_some() as usize);
         #[cfg(feature = "verif")]
         crate::verif::add_activity(ret.is_some() as usize);
+        #[cfg(feature = "verif")]
+        crate::verif::consumed(ret.is_some() as usize);
         cv.notify_all();
         ret
     }
